@@ -8,6 +8,7 @@ compiled or run.  Any construct outside the understood subset raises AnalysisBro
 """
 import copy
 
+import re
 import sympy as sp
 
 from .facts import AnalysisBroken, strip_targs
@@ -110,6 +111,8 @@ STREAM = ("stream",)
 def truthy(v):
     if isinstance(v, (bool, int)):
         return bool(v)
+    if v is sp.true or v is sp.false:
+        return bool(v)
     if isinstance(v, sp.Basic):
         z = sp.expand(v)
         if z == 0:
@@ -133,6 +136,7 @@ class Interp:
         self.steps = 0
         self.top = None          # outermost frame (locals can be inspected after a Stop)
         self.trace = []          # (function, line) of primitive emissions, for reports
+        self.stop_at = None      # (function, node id): evaluation of that node ends the interpretation (Stop)
 
     # ------------------------------------------------------------------ calls
     def call_fn(self, fn, args, this=None):
@@ -179,6 +183,9 @@ class Frame:
                 if v.get("static") and "const" not in (v.get("t") or ""):
                     self.bad(i, "mutable static local")
                 val = self.eval(v["init"]) if v.get("init") is not None else None
+                am = re.search(r"\[(\d+)\]$", (v.get("t") or "").strip())
+                if am and (val is None or not isinstance(val, list)):
+                    val = [None] * int(am.group(1))      # local array (elements default-constructed)
                 if isinstance(val, list) and not v.get("ref"):
                     val = list(val)
                 self.env[v["d"]] = val
@@ -258,6 +265,8 @@ class Frame:
     def eval(self, i):
         self.tick()
         n = self.nodes[i]
+        if self.ip.stop_at is not None and self.ip.stop_at[1] == i and self.ip.stop_at[0] is self.fn:
+            raise Stop()
         k = n["k"]
         if k == "lit":
             if n.get("lk") == "float":
@@ -424,7 +433,12 @@ class Frame:
                         return (op == "!=")      # generic symbolic values differ
                     else:
                         self.bad(i, "ordering of symbolic values")
-                return {"<": a < b, "<=": a <= b, ">": a > b, ">=": a >= b, "==": a == b, "!=": a != b}[op]
+                r = {"<": a < b, "<=": a <= b, ">": a > b, ">=": a >= b, "==": a == b, "!=": a != b}[op]
+                if r in (sp.true, sp.false):
+                    r = bool(r)      # (sympy relations between numbers evaluate to sympy booleans)
+                if not isinstance(r, bool):
+                    self.bad(i, "comparison %s of %r and %r is not decided" % (op, a, b))
+                return r
         except TypeError:
             pass
         self.bad(i, "binary %s on %r, %r" % (op, a, b))
@@ -455,7 +469,8 @@ class Frame:
             if op in ("==", "!=") and len(args) == 2:
                 a, b = self.eval(args[0]), self.eval(args[1])
                 return (a == b) if op == "==" else (a != b)
-            if op == "[]" and len(args) == 2:
+            if op in ("[]", "()") and len(args) == 2 and (op == "[]" or isinstance(self.eval(args[0]), list)):
+                # (Eigen vectors are lists: v(i) is element access)
                 c, ix = self.eval(args[0]), self.eval(args[1])
                 if isinstance(c, list):
                     if not (isinstance(ix, int) and 0 <= ix < len(c)):
@@ -476,6 +491,11 @@ class Frame:
             if op in ("+", "-", "*", "/") and len(args) == 2 and strip_targs(n.get("cname") or "").startswith("std::operator"):
                 # arithmetic of std::complex values
                 return self.binop(i, op, self.eval(args[0]), self.eval(args[1]))
+            if op in ("+=", "-=", "*=", "/=") and len(args) == 2 and strip_targs(n.get("cname") or "").startswith("std::complex"):
+                # compound assignment of std::complex values
+                v = self.binop(i, op[0], self.eval(args[0]), self.eval(args[1]))
+                self.assign(args[0], v)
+                return v
             if op in ("+", "-") and len(args) == 1 and strip_targs(n.get("cname") or "").startswith("std::operator"):
                 v = self.eval(args[0])
                 return -v if op == "-" else v
@@ -559,6 +579,11 @@ class Frame:
                 if not v.is_number:
                     self.bad(i, "ceil/floor of a symbolic value")
                 return sp.ceiling(v) if cn.endswith("ceil") else sp.floor(v)
+            if cn in ("std::max", "std::min") and len(args) == 2:
+                a, b = self.eval(args[0]), self.eval(args[1])
+                if not (isinstance(a, (int, float, sp.Rational)) and isinstance(b, (int, float, sp.Rational))) or isinstance(a, bool):
+                    self.bad(i, "max/min of symbolic values")
+                return max(a, b) if cn.endswith("max") else min(a, b)
             if cn == "std::make_pair" and len(args) == 2:
                 return pair(self.eval(args[0]), self.eval(args[1]))
             if cn in ("std::conj", "conj") and len(args) == 1:
